@@ -108,6 +108,9 @@ def _pair_shapes(tier, lq, lt, extra=True):
             out.append(dict(la=la, lb=lb, K=[1, 1], M=[1, 1]))
     if extra:
         out += [dict(la=1, lb=0, K=[2, 1], M=[2, 1]), dict(la=0, lb=1, K=[1, 2], M=[1, 2]), dict(la=1, lb=1, K=[2, 2], M=[1, 1])]
+        from .overlap import TYPE_SHAPES
+
+        out += [dict(s) for s in TYPE_SHAPES if s["la"] <= lmax and s["lb"] <= lmax]
         if tier == "thorough":
             out += [dict(la=2, lb=1, K=[2, 2], M=[2, 1]), dict(la=0, lb=0, K=[3, 4], M=[3, 2])]
     return out
@@ -121,7 +124,7 @@ class BlockBase:
         return _pair_shapes(tier, self.lq, self.lt)
 
     def run(self, shape, M):
-        s1, s2 = sym_shell_pair(M, shape["la"], shape["lb"], *shape["K"], *shape["M"])
+        s1, s2 = sym_shell_pair(M, shape["la"], shape["lb"], *shape["K"], *shape["M"], types=shape.get("types"))
         fr = Frame(c1=s1.coord, e1=s1.exps, d1=s1.coeffs, c2=s2.coord, e2=s2.exps, d2=s2.coeffs, n1=s1.norm_cont, n2=s2.norm_cont)
         out, extra = self.call(M, s1, s2)
         fr.check(M, self.tagname, out)
@@ -184,8 +187,9 @@ class AngMomBlock(BlockBase):
         (Ka, Kb), (Ma, Mb) = shape["K"], shape["M"]
         A, B = M.vec("A", 3), M.vec("B", 3)
         La, Lb = (la + 1) * (la + 2) // 2, (lb + 1) * (lb + 2) // 2
-        s1 = make_shell(M, la, A, M.vec("da", (Ka, Ma)), M.vec("a", Ka, "pos"), norm_cont=M.vec("n1", (Ma, La), "pos"))
-        s2 = make_shell(M, lb, B, M.vec("db", (Kb, Mb)), M.vec("b", Kb, "pos"), norm_cont=M.vec("n2", (Mb, Lb), "pos"))
+        ty = shape.get("types") or ("cartesian", "cartesian")
+        s1 = make_shell(M, la, A, M.vec("da", (Ka, Ma)), M.vec("a", Ka, "pos"), coord_type=ty[0], norm_cont=M.vec("n1", (Ma, La), "pos"))
+        s2 = make_shell(M, lb, B, M.vec("db", (Kb, Mb)), M.vec("b", Kb, "pos"), coord_type=ty[1], norm_cont=M.vec("n2", (Mb, Lb), "pos"))
         fr = Frame(c1=s1.coord, e1=s1.exps, d1=s1.coeffs, c2=s2.coord, e2=s2.exps, d2=s2.coeffs)
         out = M.mods["gbasis.integrals.angular_momentum"].AngularMomentumIntegral.construct_array_contraction(s1, s2)
         fr.check(M, "angmom_block", out)
@@ -208,7 +212,8 @@ class MomentBlock:
         out = [dict(la=1, lb=1, orders=[[0, 0, 0], [1, 0, 2], [0, 0, 0]]), dict(la=2, lb=0, orders=[[2, 1, 0]]),
                dict(la=0, lb=2, orders=[[0, 0, 3], [1, 1, 1]]), dict(la=0, lb=0, orders=[[4, 0, 0], [0, 4, 4]])]
         # generalized shells with different segment counts on the two sides, either order of angular momenta
-        out += [dict(la=0, lb=1, K=[2, 1], M=[2, 1], orders=[[1, 0, 0], [0, 1, 1]]), dict(la=1, lb=0, K=[1, 2], M=[1, 2], orders=[[0, 0, 2]]),
+        out += [dict(la=0, lb=2, types=["spherical", "cartesian"], orders=[[0, 0, 0], [1, 0, 1]]), dict(la=2, lb=0, types=["cartesian", "spherical"], orders=[[0, 2, 0]]),
+                dict(la=0, lb=1, K=[2, 1], M=[2, 1], orders=[[1, 0, 0], [0, 1, 1]]), dict(la=1, lb=0, K=[1, 2], M=[1, 2], orders=[[0, 0, 2]]),
                 dict(la=1, lb=1, K=[1, 2], M=[2, 3], orders=[[0, 1, 0]])]
         if tier == "thorough":
             for la in range(0, 5):
@@ -221,7 +226,7 @@ class MomentBlock:
     def run(self, shape, M):
         mom = M.mods["gbasis.integrals.moment"]
         K, Mseg = shape.get("K", [1, 1]), shape.get("M", [1, 1])
-        s1, s2 = sym_shell_pair(M, shape["la"], shape["lb"], K[0], K[1], Mseg[0], Mseg[1])
+        s1, s2 = sym_shell_pair(M, shape["la"], shape["lb"], K[0], K[1], Mseg[0], Mseg[1], types=shape.get("types"))
         if K == [1, 1]:
             # origin relative to the weighted centre keeps every 1-D quantity a single term
             a, b = s1.exps[0], s2.exps[0]
